@@ -131,7 +131,8 @@ def histories(ctx, stream: str, n_quick: int, n_thorough: int, length=(5, 40), *
 
 
 def corpus_histories(prop: str):
-    return [(c, Hist.from_json(c["history"])) for c in lib.load_corpus(prop) if "history" in c]
+    return ([(c, Hist.from_json(c["history"])) for c in lib.load_corpus(prop) if "history" in c]
+            + [({"_file": f"tie-search-{i}"}, h) for i, h in enumerate(lib.EXTRA_HISTORIES)])
 
 
 def account(corr: Corr, hists, impl, nontrivial):
